@@ -595,6 +595,11 @@ func copyKeepsType(c *Ctx, r *Report, rule string) {
 				continue
 			}
 			for _, l := range phiLeaves(ret.Results[0]) {
+				if k, isK := l.(*ssa.Const); isK && k.IsNil() {
+					m++
+					bad = append(bad, fmt.Sprintf("%s returns nil: Msg.Copy replaces the entry by nil (the copy no longer packs) and IsDuplicate(r, Copy(r)) dereferences nil", c.pos(ret.Pos())))
+					continue
+				}
 				mi, ok := l.(*ssa.MakeInterface)
 				if !ok {
 					continue
